@@ -1,6 +1,44 @@
-HOOK_COMMITS = ["02bc05e"]
+HOOK_COMMITS = ["02bc05e", "18a3dee"]
 NOT_APPLICABLE = {}
 TEXT = {
+ "C17": {
+  "text": "Kernel-checked over tables regenerated from the real GetEmbeddedMethod for all 8 spork regimes: more active "
+          "sporks never remove a method (tables_monotone), gated methods are available exactly when their own spork is "
+          "enforced along the order accelerator/bridge/htlc (gate_in_order_partial; negative witness for out-of-order "
+          "activation); over the spork state machine: activity is monotone in height, on exactly from acknowledged height + "
+          "delay, never at the genesis store, activation cannot be repeated, only the designated keys (community key only "
+          "inside its window) succeed, the unimplemented-spork report is non-empty iff an enforced spork is unknown. Tied "
+          "to the code by scenarios on a real node comparing every call outcome, IsSporkActive on every height, the report "
+          "and method availability around each enforcement height.",
+  "design_ref": "§3 C17",
+  "note": "Method tables enter as generated facts (trusted extractor calling the real function); F17 (out-of-order "
+          "activation exposes features of not-enforced sporks) is a known finding.",
+  "technique": "Lean 4 proof (decide +kernel over regenerated tables; invariants of the spork state machine) + differential scenarios",
+ },
+ "C02": {
+  "text": "Kernel-checked: two stores holding the same sequence of accepted commits are observationally equal whatever "
+          "refused or rolled-back commits, batching or reorganisations happened on the way (commit_determinism), the "
+          "frontier is the fold of the accepted patches (state_is_fold_of_patches), a view at the acknowledged momentum is "
+          "independent of how far the frontier has moved (view_independent_of_frontier), change sets are write-order "
+          "independent; generated fact: no wall-clock/random/goroutine site outside the reviewed list. Tied to the code by "
+          "a producer + five followers under generated delivery schedules with byte-exact state comparison and by feeding "
+          "the real redo patches through the model.",
+  "design_ref": "§3 C02",
+  "note": "Hash functions are parameters; determinism of the Go VM itself is correspondence (multi-node) + AST fact.",
+  "technique": "Lean 4 refinement corollaries + regenerated AST fact + multi-node differential replay",
+ },
+ "C08": {
+  "text": "Kernel-checked: the write plan of a commit / rollback is ONE leveldb batch whose effect is exactly the manager "
+          "model's state transition (add_plan_effect, pop_plan_effect), hence after any number of completed writes the disk "
+          "is the state before or after (crash_atomic_*), and re-delivery from either state reaches the crash-free state; "
+          "negative witness for the per-key plan (finding F6, fixed). Tied to the code without call-site hooks: the journal "
+          "of the live database gives the real write sequence, which is compared with the model's plan, and every cut point "
+          "is materialised as a crash image and checked.",
+  "design_ref": "§3 C08",
+  "note": "leveldb's batch atomicity and journal recovery are trusted; fsync/power-loss durability is out of scope "
+          "(the property speaks of process death).",
+  "technique": "Lean 4 proof about the write plan + journal-derived crash images (fault enumeration at every write boundary)",
+ },
  "C01": {
   "text": "Kernel-checked invariants of the abstract ledger state machine (balances, confirmed sends, receive markers, "
           "token contract issue/mint/burn/update), by induction over accepted blocks and lifted to all reachable states: "
@@ -51,24 +89,55 @@ TEXT = {
   "technique": "Lean 4 proof over the ledger state machine + differential replay of accepted blocks + exact-refund monitor",
  },
  "C07": {
-  "text": "Kernel-checked refinement: the rollback overlay that Get(X) folds from the stored undo patches, laid over the "
-          "frontier, equals the store as of X for every key and every sequence of later commits (view_reconstructs), the "
-          "byte-level tombstone/marker encoding refines the logical level (hist_get_refines, overlay_refines, apply_refines). "
-          "The hand-written model of ldbManager and the view tree is tied to the code by the vdb stream (every read of every "
-          "operation sequence compared) and a shadow-map monitor that states the property directly.",
+  "text": "Kernel-checked on the EXECUTABLE manager model (Ldb = ldbManager, cache-free Get) for every reachable state "
+          "(any sequence of frontier commits, commits on other parents, pops; ghost history invariant proved by "
+          "induction, Lemmas/LdbInv.lean): Get(id) of every version on the chain succeeds and reads, for every key, "
+          "exactly the content at that commit (view_refines, view_refines_has); its ordered prefix scan is the "
+          "key-ordered list of exactly those entries (view_refines_scan_partial, via merged_scan_correct: two-way merged "
+          "iterator over sorted layers = sorted entries of the merged lookup) except empty-valued keys below the "
+          "frontier (F3b, negative theorems); unknown identifiers are refused, commits on a non-frontier parent change "
+          "nothing (add_parent_check), views of the same version agree across states (view_immutable), a cached overlay "
+          "extended above its frontier equals the rebuilt one (cached_overlay_sound), replaying a view's change set "
+          "gives its reads and the change set is independent of write order (changes_replay_*, changes_order_independent). "
+          "The model is tied to the code by the vdb stream (every read of every operation sequence compared) and a "
+          "shadow-map monitor that states the property directly.",
   "design_ref": "§3 C07",
-  "note": "Sequential model; caches not modelled (cache-free Get) — cached real code compared by correspondence; "
-          "goleveldb snapshots trusted; scans of historical views drop empty-valued keys (known finding F3b).",
-  "technique": "Lean 4 refinement proof (induction over commits) + differential correspondence on op sequences",
+  "note": "Sequential model; caches are not state of the model (cache-free Get; the cached path is covered by "
+          "cached_overlay_sound + correspondence); hypotheses of a frontier commit: height = frontier height + 1 < 2^64, "
+          "hash not on the chain, user keys outside the hash-index prefix; goleveldb snapshots trusted; scans of "
+          "historical views drop empty-valued keys (known finding F3b); patches_replay concerns the GetPatch table, "
+          "which the stream does not exercise.",
+  "technique": "Lean 4 refinement proof (induction over reachable manager states) + differential correspondence on op sequences",
  },
  "C06": {
-  "text": "Kernel-checked: the undo patch recorded at commit restores the previous state for every key (rollback_exact), "
-          "popping a whole branch returns to the fork point and committing the other branch ends in the state of a node "
-          "that only saw that branch (branch_switch); tied to ldbManager by the pop-heavy vdb stream with views opened "
-          "before the switch and re-read after it.",
+  "text": "Kernel-checked on the executable manager model: in every reachable state, commit on the frontier followed "
+          "by pop is observationally the identity — same logical frontier, same frontier identifier, and for every "
+          "identifier Get answers alike with views agreeing on every lookup and every ordered prefix scan (pop_add, "
+          "ObsEq); any two reachable states with the same chain of versions are observationally equal whatever "
+          "branches were committed and popped on the way (same_history_same_obs); the undo patch recorded at commit "
+          "restores the previous state for every key (rollback_exact), popping a whole branch returns to the fork "
+          "point (branch_switch); tied to ldbManager by the pop-heavy vdb stream with views opened before the switch "
+          "and re-read after it.",
   "design_ref": "§3 C06",
-  "note": "State-level theorems; pool and consensus-statistics clauses are correspondence only.",
-  "technique": "Lean 4 proof (induction) + differential correspondence on op sequences",
+  "note": "Observational, not raw, equality (tombstones of created keys remain in the raw frontier — witness example); "
+          "pool and consensus-statistics clauses are correspondence only.",
+  "technique": "Lean 4 proof (invariant over reachable manager states) + differential correspondence on op sequences",
+ },
+ "C05": {
+  "text": "Kernel-checked theorems over Go-faithful models: SelectProducers for any sorting algorithm and any rand.Perm "
+          "(exactly NodeCount slots, members only, input-order irrelevance for distinct names, no pillar twice when enough "
+          "pillars), ticker (ToTime(ToTick t) <= t < next, monotone, round trip), schedule (slots tile the tick, producer "
+          "lookup answers exactly at slot starts with the i-th elected pillar), GetMomentumBeforeTime = last momentum with "
+          "ts < t (estimate loop + sort.Search, total for whole-second instants), proof momentum determined by the chain "
+          "prefix, cache = recomputation, and momentum_verify_sound for the verifier whose check ORDER is read from the Go "
+          "AST on every run; all tied to the tree by three differential streams (election, ticker, mverify on a real mock "
+          "chain with every single-field mutation and wrongly signed momentums) with model-free monitors.",
+  "design_ref": "§3 C05",
+  "note": "rand.Perm / sort.Sort / hashes / ed25519 / momentum VM are parameters or oracle values with explicit hypotheses; "
+          "pillar weights (ComputePillarDelegations) are taken from the real code; cross-node schedule equality after "
+          "restart/reorg is by the cold-vs-cached comparison on one node plus the prefix theorem, not by a multi-node run.",
+  "technique": "Lean 4 proof (induction, permutation reasoning) + regenerated facts (constants, verifier check order from "
+               "the AST) + differential correspondence + model-free monitors",
  },
  "C12": {
   "text": "Kernel-checked theorems over the Go-faithful model of getTargetByDifficulty / greaterDifficulty / "
@@ -86,5 +155,29 @@ TEXT = {
   "design_ref": "§3 C18",
   "note": "JSON-RPC server survival and embedded getters are not theorems (runtime / correspondence).",
   "technique": "Lean 4 proof (omega) + differential correspondence",
+ },
+ "C14": {
+  "text": "Kernel-checked theorems over the Go-faithful model of higherPriority (uint64 products), filterBlocksToCommit "
+          "and the per-address memdbManager-backed pool: the competition rule is total/antisymmetric for all uint64 inputs, "
+          "transitive and arrival-order independent in the accepted plasma range (negative witnesses for zero plasma and "
+          "wrap-around), the momentum content is the longest batch-boundary prefix within the limit, and the pooled blocks "
+          "form one chain above the confirmed frontier under all operation sequences; tied by regenerated constants and "
+          "differential streams.",
+  "design_ref": "§3 C14",
+  "note": "Data-race freedom and reader atomicity are runtime properties (not theorems). The pool state machine is a "
+          "hand-written model; the two pure decision functions are tied by differential streams.",
+  "technique": "Lean 4 proof (induction/omega) + regenerated constants + differential correspondence",
+ },
+ "C11": {
+  "text": "Kernel-checked theorems over the Go-faithful model (wrapping int64, truncating big.Int.Quo) of the reward "
+          "arithmetic: rounded-down pro-rata shares never exceed the split amount (stake, sentinel, pillar/backers, "
+          "liquidity stake), the pillar formula stays within (delegation+producing per momentum) x expected momentums, "
+          "and for every uint64 epoch the regenerated emission tables give non-negative pieces that sum to at most the "
+          "network emission per coin; tied by regenerated tables and a differential stream that runs the real contract "
+          "functions on an in-memory storage.",
+  "design_ref": "§3 C11",
+  "note": "Arithmetic part only (T1-T3). Epoch cursor (exactly once, in order), collect-once and node-independence are "
+          "not covered by this check yet.",
+  "technique": "Lean 4 proof (induction/omega/decide over generated tables) + regenerated constants + differential correspondence",
  },
 }
